@@ -127,6 +127,11 @@ func (c *Ctx) callersOf(fn *ssa.Function) []callSite {
 			continue
 		}
 		seen[e.Site] = true
+		if e.Caller.Func.Synthetic != "" && e.Caller.Func.Parent() == nil && len(e.Caller.In) == 0 {
+			// synthetic pointer-receiver / bound wrapper that nobody calls: an artefact of the
+			// initial CHA graph, not a caller
+			continue
+		}
 		out = append(out, callSite{e.Caller.Func, e.Site})
 	}
 	sort.Slice(out, func(i, j int) bool {
@@ -191,4 +196,20 @@ func (c *Ctx) funcsCalling(callee *types.Func, rel string) []*ssa.Function {
 		}
 		return len(core.CallsTo(fn, callee)) > 0
 	})
+}
+
+// globalStructField resolves a field of a package-level variable of anonymous struct type.
+func (c *Ctx) globalStructField(rel, global, field string) *types.Var {
+	g := c.global(rel, global)
+	st, ok := g.Type().Underlying().(*types.Struct)
+	if !ok {
+		c.lost("struct var " + rel + "." + global)
+	}
+	for i := 0; i < st.NumFields(); i++ {
+		if st.Field(i).Name() == field {
+			return st.Field(i)
+		}
+	}
+	c.lost("field " + rel + "." + global + "." + field)
+	return nil
 }
